@@ -10,6 +10,11 @@ package store
 //@ ghost func roPtr() *bool
 //@ ghost func fsWritable() bool
 
+//@ -- nothing in the store removes a directory tree: removal is file by file and directory by directory, so that a directory
+//@ -- which still holds content the sweep kept (a recent upload, C05; another algorithm's blobs, C10) cannot go with it
+//@ funcs *
+//@   forbid [no-recursive-removal]{C05,C06,C10} "os.RemoveAll"
+
 //@ -- every function of the package: without write permission nothing is written
 //@ funcs *
 //@   props C14
@@ -394,6 +399,9 @@ package store
 //@ func (m *mem) RepoGet(ctx context.Context, repoStr string) (repo Repo, err error)
 //@   requires [name-safe]{C16} safeRel(repoStr)
 //@   assert [repo-dir-inside-root]{C16} before call memRepo.repoInit#1: within(mr#2.path, m.conf.Storage.RootDir)
+//@   -- a memory store without a root directory has no backing directory at all: its repositories carry no path, so no blob
+//@   -- look-up ever reaches the file system (a relative path would be resolved against the working directory of the process)
+//@   assert [no-root-means-no-path]{C16} before "mr.wg.Add(1)"#2: m.conf.Storage.RootDir == "" ==> mr#2.path == ""
 //@   assert [session-limit-configured]{C08} before "cache.New[string, *memRepoUpload]": (m.conf.Storage.GC.RepoUploadMax > 0 ==> arg0.Count == m.conf.Storage.GC.RepoUploadMax) &&
 //@             (m.conf.Storage.GC.GracePeriod > 0 ==> arg0.Age == m.conf.Storage.GC.GracePeriod)
 
@@ -584,6 +592,7 @@ package store
 
 //@ -- index ingest (C10, C02): the scan of nested indexes is a work list; it is only left when the list is empty, so
 //@ -- every index met on the way (at any depth) has had its children recorded
+//@ ghost func ivrSubject(i int) digest.Digest
 //@ func indexIngest(repo Repo, index *types.Index, conf config.Config, locked bool) (mod bool, err error)
 //@   requires [conf-defaulted] config.defaulted(conf)
 //@   requires [repo] repo != nil && index != nil
@@ -599,6 +608,10 @@ package store
 //@   forbid [no-relock-while-locked]{C17} "repo.BlobDelete("
 //@   forbid [no-relock-while-locked]{C17} "repo.BlobGet("
 //@   ensures [already-stored-is-not-a-failure]{C17} err != types.ErrBlobExists
+//@   -- a fallback index that validates is adopted as the response of the subject ITS MANIFESTS name (what indexValidReferrer
+//@   -- returned for it in this iteration), whatever the tag is called - referrers are grouped by the subject they name
+//@   assume [subject-as-validated] after "indexValidReferrer(": ret1 == ivrSubject(rangeindex)
+//@   assert [adopted-under-the-validated-subject]{C17} before "index.AddDesc(newDesc)": types.subjOf(arg1) == ivrSubject(rangeindex)
 //@   -- the conversion is recorded: with the referrers API on, a successful ingest leaves the index marked as converted, so the
 //@   -- fallback tags are not converted (and their responses not rebuilt) a second time
 //@   loop 6,7: invariant [converted-kept]{C17} *conf.API.Referrer.Enabled ==> index.Annotations != nil && index.Annotations[types.AnnotReferrerConvert] == "true"
@@ -626,6 +639,11 @@ package store
 //@ -- period protects it until the manifest that needs it arrives
 //@ func (mru *memRepoUpload) Close() (err error)
 //@   -- C08: a session that has ceased to exist (cancelled, expired, evicted) is not closed into a blob: further use is refused
+//@   -- C06: a repository that gained a blob counts as modified from then on, so the next pass visits it (the window of a
+//@   -- pass reaches back to the previous one) - also when the session was opened before that pass
+//@   -- C08: a session ceases to exist on completion: after a successful Close it is no longer among the repository's sessions
+//@   ensures [completed-session-ceases-to-exist]{C08} err == nil ==> !(mru.sessionID in mru.mr.uploads.entries)
+//@   ensures [gained-blob-marks-the-repository-modified]{C06} err == nil ==> mru.mr.timeMod >= old(clock())
 //@   ensures [gone-session-never-becomes-a-blob]{C08} !old(mru.sessionID in mru.mr.uploads.entries) ==> err != nil
 //@   ensures [ack-is-recent]{C05,C01} err == nil ==> (digestNow(mru.d) in mru.mr.blobs) && mru.mr.blobs[digestNow(mru.d)] != nil &&
 //@             mru.mr.blobs[digestNow(mru.d)].m.mod >= old(clock())
@@ -645,6 +663,7 @@ package store
 //@ func (dru *dirRepoUpload) Close() (err error)
 //@   -- a successful Close has moved the file of this session (with its recent mtime) into the blob store, also when a
 //@   -- file of that name was there before (C05: recent means recently acknowledged; C02, C09)
+//@   ensures [completed-session-ceases-to-exist]{C08} err == nil ==> !(dru.sessionID in dru.dr.uploads.entries)
 //@   ensures [acknowledged-means-moved]{C05,C02,C09} err == nil ==> renamedTo(blobName) > old(renamedTo(now(blobName)))
 //@   assert [blob-name-is-its-digest]{C10,C01} before "os.Rename(dru.filename": blobName == pathJoin(pathJoin(pathJoin(dru.path, "blobs"), algOf(digestNow(dru.d))), hexOf(digestNow(dru.d)))
 
